@@ -21,7 +21,7 @@ structure Inv2 (n : Nat) (s : Sys) : Prop where
   leader_log : ∀ i, (s.nodes i).role = .leader →
       (s.nodes i).log = s.ghost.tl (s.nodes i).term ∧ s.ghost.tl (s.nodes i).term ≠ [] ∧
       ∃ Q, ((s.nodes i).term, i, Q) ∈ s.ghost.elected
-  msg_ok : ∀ ldr t p pt es, Msg.ae ldr t p pt es ∈ s.net → MsgOK s.ghost.tl t p pt es
+  msg_ok : ∀ ldr t p pt es lc, Msg.ae ldr t p pt es lc ∈ s.net → MsgOK s.ghost.tl t p pt es
   elected_term : ∀ t l Q, (t, l, Q) ∈ s.ghost.elected → t ≤ (s.nodes l).term
   elected_role : ∀ i Q, ((s.nodes i).term, i, Q) ∈ s.ghost.elected → (s.nodes i).role ≠ .candidate
 
